@@ -24,6 +24,7 @@ from nvlib.check import Prop
 from nvlib.extract import TieBroken
 
 MODS = ["-", "static", "private", "protected", "public"]
+VH_T0 = 1000000000       # harness/common/vh.h: the virtual clock starts here
 
 
 # --------------------------------------------------------------------------------------------
@@ -527,6 +528,12 @@ class C07(Prop):
         self.exe = E.compile_harness("c07", [os.path.join(E.VERIF, "harness/c07/c07.c")])
         self.conf = E.make_mudlib(ctx.rundir, master="/c07/master.c", extra_conf="SaveBinaryDir /c07bin\n")
         self.mud = os.path.join(ctx.rundir, "mudlib")
+        # the harness runs on a VIRTUAL clock (current_time = VH_T0 = 10^9): save_binary() refuses to save a program whose
+        # inherited programs were built from files modified after their object's load_time, so every file a generated
+        # program is built from (its source, the includes) must be older than the virtual load times
+        for root, _, files in os.walk(os.path.join(self.mud, "include")):
+            for f in files:
+                os.utime(os.path.join(root, f), (VH_T0 - 7200, VH_T0 - 7200))
         self.last_impl = {}
 
     def _dir_of(self, cid):
@@ -545,7 +552,7 @@ class C07(Prop):
             os.makedirs(path)
             g, order = parse_graph(c.lines)
             savebin = any(l.strip() == "savebin" for l in c.lines)
-            old = time.time() - 7200
+            old = VH_T0 - 7200          # older than the virtual load times and than any binary written for it
             for n in order:
                 fn = os.path.join(path, n + ".c")
                 with open(fn, "w") as f:
@@ -587,7 +594,7 @@ class C07(Prop):
             impl = self.last_impl.get(c.id)
             if impl is None:
                 impl = self.run_impl(ctx, [c]).get(c.id, [])
-            dumped = [l for l in impl if l.split(" ", 1)[0] in ("nm", "tbl", "cmp", "obj", "reload") or re.match(r"ld \S+ !fail$", l)]
+            dumped = [l for l in impl if l.split(" ", 1)[0] in ("nm", "tbl", "cmp", "obj", "reload", "binloads") or re.match(r"ld \S+ !fail$", l)]
             ms.append(E.Case(c.id, c.lines + ["--"] + dumped))
         return E.nvdrive(self.id, "model", E.cases_text(ms))
 
